@@ -386,6 +386,19 @@ func TestC08(t *testing.T) {
 		{"1.5", "1.5"}, {"-0.25", "-0.25"}, {"2.0", "2"}, {"10.50", "10.5"}, {"true", "true"}, {"false", "false"},
 		{`"abc"`, "abc"}, {`'abc'`, "abc"}, {`"it's"`, "it's"}, {`'say "hi"'`, `say "hi"`}, {`" padded "`, " padded "}, {`"é😀"`, "é😀"}, {`"a | b: c, d"`, "a | b: c, d"},
 		{`"x[0].y"`, "x[0].y"}, {`"100%"`, "100%"}, {`"{ brace }"`, "{ brace }"}, {`"and or contains nil true"`, "and or contains nil true"}, {`""`, ""}, {`''`, ""}, {`"(1..3)"`, "(1..3)"}, {`"line1\nline2"`, `line1\nline2`}} // no escapes in Liquid strings: backslash-n stays two characters
+	// decimal whatever zeros lead: every n below 130 and a few beyond, written with one and two leading zeros, negative too
+	for _, n := range append(func() (r []int) {
+		for i := 0; i < 130; i++ {
+			r = append(r, i)
+		}
+		return
+	}(), 255, 511, 644, 755, 777, 1000, 7777) {
+		lits = append(lits, c08LitCase{fmt.Sprintf("0%d", n), fmt.Sprint(n)}, c08LitCase{fmt.Sprintf("00%d", n), fmt.Sprint(n)})
+		if n > 0 {
+			lits = append(lits, c08LitCase{fmt.Sprintf("-0%d", n), fmt.Sprint(-n)})
+		}
+	}
+	lits = append(lits, c08LitCase{"010.5", "10.5"}, c08LitCase{"00.25", "0.25"})
 	for i := range lits {
 		if env.Mine(i) {
 			lit.Run(&lits[i])
